@@ -655,6 +655,11 @@ class AbstractConstraintSet(AbstractConstraint):
         return iter(self._values)
 
     def __add__(self, value):
+        if self._values and not self._extensionNarrows:
+            # one more alternative would admit more values; a constraint
+            # added to a type narrows it: both have to hold
+            return ConstraintsIntersection(self, value)
+
         return self._derive(self._values + (value,))
 
     def __radd__(self, value):
